@@ -87,6 +87,9 @@ impl Prop for C14 {
                 cfg.raw = tables && r.p(60);
                 cfg.pad = r.p(10);
                 cfg.decorate = r.p(30);
+                // width overflow: forced line breaks after characters wider than the line (markers next to them were
+                // dropped before fix 1a5345d, which a proof attempt found)
+                cfg.overflow = r.p(25);
                 let w = if r.p(50) { 1 + r.u(8) } else { 1 + r.u(100) };
                 v.push(case(html.clone(), cfg, w, if tables { "tables" } else { "blocks" }));
             }
